@@ -4,6 +4,7 @@ import "github.com/elys-network/elys/zzvrf/h_c12"
 
 // An account that holds committed shares of two pools and leaves one of them: the commitment ledger's step
 // (h_c12) must keep the other pool's committed shares, or the sum of committed shares falls below its supply.
+//
 //vrf:cover uncommit-ok uncommit-refused
 //vrf:bound see h_c12.H_Uncommit_TwoShareDenoms
 func H_TwoPools_LeaveOne() { h_c12.H_Uncommit_TwoShareDenoms() }
